@@ -461,6 +461,14 @@ func (g *streamGen) windowFill(x *mc.Exec) ([]byte, string) {
 		nF, js = 1, []int{0, 1, 2, 15, 16, 17, 257, 258} // quick tier: the first fill point, 8 offsets
 	}
 	F := []int{65536, 98304}[x.Choose(nF, "fill-point")]
+	if x.Choose(2, "what-straddles") == 1 {
+		// the END of a block at the fill point: its last 1..4 literals and the end-of-block code (one packed entry
+		// with the short code) straddle it, and the next block follows at once
+		j := x.Choose(5, "bytes-before-fill") // 0..4
+		nl := 1 + x.Choose(4, "literals-before-eob")
+		next := x.Choose(5, "next-block")
+		return g.windowFillBlockEnd(F, j, nl, next)
+	}
 	j := js[x.Choose(len(js), "bytes-before-fill")]
 	nl := x.Choose(3, "literals-before-match")
 	L := wfLen[x.Choose(len(wfLen), "match-len")]
@@ -529,6 +537,55 @@ func (g *streamGen) windowFillStreamAt(F, j, nl, L, d, kind int) ([]byte, string
 	at := (w.Len() + 7) / 8
 	synth.BuildTo(w, blk, synth.Block{Final: true, Type: 0, Stored: []byte("end")})
 	return w.Bytes(), fmt.Sprintf("window-fill F=%d j=%d lits=%d match(%d,%d) kind=%d", F, j, nl, m.Len, d, kind), at
+}
+
+// windowFillBlockEnd: stored prefix of F-j bytes, a NON-final dynamic block with 2-4 bit codes holding nl literals
+// and nothing else, then at once: 0 a fixed block starting with a literal, 1 a dynamic block starting with a
+// literal, 2 a fixed block starting with a match, 3 a non-empty stored block, 4 a sync marker and then a fixed block
+// starting with a literal; each of them final.
+func (g *streamGen) windowFillBlockEnd(F, j, nl, next int) ([]byte, string) {
+	pre := g.wfPrefix(F - j)
+	w := &synth.BitWriter{}
+	for h := pre; len(h) > 0; {
+		n := len(h)
+		if n > 65535 {
+			n = 65535
+		}
+		synth.BuildTo(w, synth.Block{Type: 0, Stored: h[:n]})
+		h = h[n:]
+	}
+	syms := []int{'a', 'b', 256, 257, 285, 258, 264, 265, 270, 284}
+	lens := []uint8{2, 2, 4, 3, 3, 4, 5, 5, 5, 5}
+	short := synth.Block{Type: 2, LitLens: trimLitLens(synth.Assign(286, syms, lens)), DistLens: g.dists[4].Lens, Enc: synth.EncRepeat}
+	blk := short
+	for i := 0; i < nl; i++ {
+		blk.Syms = append(blk.Syms, synth.Sym{Kind: synth.SymLit, Lit: 'a' + i%2})
+	}
+	lits := func(n int) []synth.Sym {
+		var o []synth.Sym
+		for i := 0; i < n; i++ {
+			o = append(o, synth.Sym{Kind: synth.SymLit, Lit: 'b' - i%2})
+		}
+		return o
+	}
+	var rest []synth.Block
+	switch next {
+	case 0:
+		rest = []synth.Block{{Final: true, Type: 1, Syms: lits(6)}}
+	case 1:
+		nb := short
+		nb.Final = true
+		nb.Syms = lits(6)
+		rest = []synth.Block{nb}
+	case 2:
+		rest = []synth.Block{{Final: true, Type: 1, Syms: append([]synth.Sym{{Kind: synth.SymMatch, Len: 5, Dist: 3}}, lits(4)...)}}
+	case 3:
+		rest = []synth.Block{{Final: true, Type: 0, Stored: []byte("stored")}}
+	case 4:
+		rest = []synth.Block{{Type: 0}, {Final: true, Type: 1, Syms: lits(6)}}
+	}
+	synth.BuildTo(w, append([]synth.Block{blk}, rest...)...)
+	return w.Bytes(), fmt.Sprintf("window-fill F=%d j=%d block-end after %d literals, next=%d", F, j, nl, next)
 }
 
 func (g *streamGen) wfPrefix(n int) []byte {
